@@ -162,6 +162,11 @@ type RScenario struct {
 	// hang verdict of realquiet.go - BEFORE the closing Close, which would end
 	// the stream by closing the connection and hide a context that is ignored.
 	NoEndWait bool `json:"no_end_wait,omitempty"`
+	// Ctor: which exported constructor of client/gnmi makes the transport of
+	// every Subscribe call (realctor.go): "" = gnmi.New, "from-conn" = an
+	// application-registered client type that dials itself and wraps the
+	// connection with gnmi.NewFromConn.
+	Ctor string `json:"ctor,omitempty"`
 }
 
 // realBadPaths: query paths the gNMI request builder rejects - after the RPC
@@ -180,6 +185,9 @@ var realBadKinds = []string{"key-without-name", "stray-bracket", "empty-element"
 func (sc *RScenario) validate() error {
 	if sc.Client != "base" && sc.Client != "cache" {
 		return fmt.Errorf("client %q", sc.Client)
+	}
+	if !knownRealCtor(sc.Ctor) {
+		return fmt.Errorf("constructor %q", sc.Ctor)
 	}
 	if len(sc.Conns) > 16 || len(sc.Steps) == 0 || len(sc.Steps) > 16 {
 		return fmt.Errorf("%d connections, %d steps", len(sc.Conns), len(sc.Steps))
@@ -396,6 +404,12 @@ type rcall struct {
 	closedAt  int  // Close calls issued when it was called
 	ctx       context.Context
 	release   func()
+	// closedStreaming (plain clients): a Close call was issued while the stream of
+	// this call was established (the handler had been invoked on it, so the
+	// transport was installed in the client): that Close is a stop action of the
+	// call - "for any timing of Close relative to Subscribe ... while streaming
+	// ... both calls return".
+	closedStreaming bool
 	// selfEnding: the context ends by a deadline (the stop action was issued
 	// with the call); ctxEnded: the harness ended it (cancel step, trap,
 	// Cancelled) or saw its deadline pass.
@@ -581,6 +595,7 @@ var (
 func realInstall() {
 	realOnce.Do(func() {
 		client.RegisterTest(realTrapType, realTrapCtor)
+		client.RegisterTest(realConnType, realConnCtor)
 		orig := gclient.ToSubscribeRequest
 		gclient.ToSubscribeRequest = func(q client.Query) (*gpb.SubscribeRequest, error) {
 			if w := curReal.Load(); w != nil {
@@ -657,10 +672,20 @@ func (w *rworld) closeAsync() <-chan struct{} {
 	w.mu.Lock()
 	w.nClose++
 	if !w.sc.Plain {
-		// (Close of a plain client ends a stream, not a connection attempt)
 		for _, c := range w.calls {
 			if !c.returned {
 				c.stopped = true
+			}
+		}
+	} else if c := w.cur; c != nil && !c.returned && w.nBegin > w.nEnd && w.nBegin > c.beginBase {
+		// Close of a plain client ends a stream, not a connection attempt: it is
+		// a stop action of the running call only if the stream is established -
+		// a notification of the running attempt has reached the handler, which
+		// happens after the client installed the transport Close acts on.
+		for i := len(w.trace) - 1; i >= 0 && w.trace[i].kind != "sub-begin"; i-- {
+			if k := w.trace[i].kind; k == "connected" || k == "upd" || k == "sync" {
+				c.stopped, c.closedStreaming = true, true
+				break
 			}
 		}
 	}
@@ -879,6 +904,11 @@ func runReal(sc *RScenario) (st *tstats, err error) {
 	if lerr != nil {
 		return st, &errInconclusive{"listen: " + lerr.Error()}
 	}
+	if sc.Ctor == "" {
+		st.label("ctor:gnmi.New")
+	} else {
+		st.label("ctor:gnmi.NewFromConn")
+	}
 	w := &rworld{sc: sc, poke: make(chan struct{}, 1), burstGate: make(chan struct{}), burstStop: make(chan struct{})}
 	w.ports = append(w.ports, lis.Addr().(*net.TCPAddr).Port)
 	dead := ""
@@ -1019,10 +1049,20 @@ func runReal(sc *RScenario) (st *tstats, err error) {
 		ok, stuck := w.awaitStopped(func() bool { return c.returned }, ended)
 		switch {
 		case ok:
+			w.mu.Lock()
+			byClose := c.closedStreaming && !c.ctxEnded && !c.selfEnding
+			w.mu.Unlock()
+			if byClose {
+				// (awaited with nothing but the Close call to end it)
+				st.label("plain-close-while-streaming-awaited-without-cancel")
+			}
 			return true
 		case stuck != "":
 			w.mu.Lock()
 			why := "Close had been called on its reconnecting client"
+			if c.closedStreaming {
+				why = "Close had been called on its plain client while the stream was established"
+			}
 			if c.ctx.Err() != nil {
 				why = fmt.Sprintf("its context had ended (%v)", c.ctx.Err())
 			}
@@ -1178,6 +1218,9 @@ func runReal(sc *RScenario) (st *tstats, err error) {
 			if s.Trap == "pre-dial" || s.Trap == "post-dial" {
 				typ = realTrapType
 			}
+			if sc.Ctor == "from-conn" {
+				typ = realConnType // (has the traps of the dial as well)
+			}
 			w.mu.Lock()
 			call := &rcall{n: len(w.calls), step: s, cancel: cancel, release: release, ctx: ctx, beginBase: w.nBegin, closedAt: w.nClose}
 			call.selfEnding = ctxSelfEnding(s.Ctx) && !s.Cancelled
@@ -1257,6 +1300,11 @@ func runReal(sc *RScenario) (st *tstats, err error) {
 			closedAny = true
 			w.closeAsync()
 			issued()
+			w.mu.Lock()
+			if c := w.cur; c != nil && c.closedStreaming {
+				st.label("plain-close-finds-established-stream")
+			}
+			w.mu.Unlock()
 		}
 		if inconclusive != "" || hang != nil {
 			break
@@ -1307,12 +1355,19 @@ func runReal(sc *RScenario) (st *tstats, err error) {
 			}
 		}
 	}
-	if inconclusive == "" && hang == nil && !sc.Plain {
-		// Close alone must end every Subscribe call of a reconnecting client
+	if inconclusive == "" && hang == nil {
+		// Close alone must end every Subscribe call of a reconnecting client, and
+		// the call of a plain client whose established stream a Close call found
 		w.mu.Lock()
 		calls := append([]*rcall(nil), w.calls...)
 		w.mu.Unlock()
 		for _, c := range calls {
+			w.mu.Lock()
+			due := !sc.Plain || c.closedStreaming
+			w.mu.Unlock()
+			if !due {
+				continue
+			}
 			if !settle(c, "the closing Close has returned") {
 				break
 			}
@@ -1609,7 +1664,8 @@ func realLabels(sc *RScenario, trace []rev, st *tstats) {
 	} else {
 		ctxEndedInStream = false
 	}
-	st.nontriv = failedAfterDial || ctxEndedInStream
+	// ... or the established stream of a plain client was ended by Close alone.
+	st.nontriv = failedAfterDial || ctxEndedInStream || st.labels["plain-close-while-streaming-awaited-without-cancel"]
 	if st.nontriv {
 		st.label("nontrivial")
 	}
